@@ -40,7 +40,7 @@ def gen_cases(tier: str, seed: int) -> list[dict]:
                       "seed": rng.randrange(1 << 30), "count": per_case})
     dfs_configs = [(1, 0), (1, 1), (1, 2), (1, 3), (2, 0), (2, 1), (2, 2), (2, 3)]
     for T, n in dfs_configs:
-        for variant in ("full", "early", "fail"):
+        for variant in ("full", "early", "fail", "fail-base"):
             cases.append({"kind": "dfs", "T": T, "n": n, "variant": variant,
                           "preemptions": 2 if tier == "quick" else 3,
                           "budget": 1500 if tier == "quick" else 40000})
@@ -54,7 +54,15 @@ class Boom(Exception):
     pass
 
 
-def one_schedule(sched_mod, lp, policy, T: int, inputs, early, fail, reuse: str):
+class BoomBase(BaseException):
+    """A failure that does not derive from Exception (like asyncio.CancelledError or SystemExit)."""
+
+
+FAIL_TYPES = {"exception": Boom, "base-exception": BoomBase, "system-exit": SystemExit}
+FAILURES = (Boom, BoomBase, SystemExit)
+
+
+def one_schedule(sched_mod, lp, policy, T: int, inputs, early, fail, reuse: str, fail_type: str = "exception"):
     """Run one schedule.  Returns (verdict dict, scheduler)."""
     sched = sched_mod.Scheduler(policy)
     STATE["sched"] = sched
@@ -75,7 +83,7 @@ def one_schedule(sched_mod, lp, policy, T: int, inputs, early, fail, reuse: str)
 
     def func(x):
         if fail is not None and x == fail:
-            raise Boom(f"mapped function failed on input {x}")
+            raise FAIL_TYPES[fail_type](f"mapped function failed on input {x}")
         return x * 2 + 1
 
     def plain(x):
@@ -92,7 +100,7 @@ def one_schedule(sched_mod, lp, policy, T: int, inputs, early, fail, reuse: str)
                         break
                 if reuse == "same-context" and early is None and fail is None:
                     out2 = list(pool.imap_unordered(plain, range(T + 2)))
-        except Boom as exc:
+        except FAILURES as exc:
             raised = str(exc)
         sched_mod.join_workers(sched)
         first_threads = len(sched.threads)
@@ -197,7 +205,9 @@ def run_controlled(case: dict) -> dict:
         T, n, early, fail, reuse = config_from(rng)
         seed = rng.randrange(1 << 30)
         policy = make_policy(sched_mod, case["policy"], seed)
-        verdict, sched = one_schedule(sched_mod, lp, policy, T, n if n is not None else "inf", early, fail, reuse)
+        fail_type = rng.choice(sorted(FAIL_TYPES)) if fail is not None else "exception"
+        verdict, sched = one_schedule(sched_mod, lp, policy, T, n if n is not None else "inf", early, fail, reuse,
+                                      fail_type)
         obs["schedules"] += 1
         obs["scheduling_steps"] += sched.steps
         active = sum(1 for t in sched.threads.values() if t["steps"] > 0)
@@ -216,7 +226,7 @@ def run_controlled(case: dict) -> dict:
             if len(violations) < 12:
                 violations.append({"key": f"{key}{'/mapped-function-fails' if fail is not None else ''}"
                                           f"{'/early-exit' if early is not None else ''}",
-                                   "msg": f"T={T} n={n} early={early} fail={fail} reuse={reuse} policy={case['policy']} "
+                                   "msg": f"T={T} n={n} early={early} fail={fail}({fail_type}) reuse={reuse} policy={case['policy']} "
                                           f"seed={seed}: {msg}",
                                    "detail": {"choices": [c[0] for c in sched.choices][:400]}})
         if sample is None:
@@ -232,7 +242,8 @@ def run_dfs(case: dict) -> dict:
     sched_mod, lp = ensure_installed()
     T, n, variant = case["T"], case["n"], case["variant"]
     early = max(1, n // 2) if variant == "early" and n > 0 else None
-    fail = n - 1 if variant == "fail" and n > 0 else None
+    fail = n - 1 if variant.startswith("fail") and n > 0 else None
+    fail_type = "base-exception" if variant == "fail-base" else "exception"
     violations, sigs = [], []
     obs: Counter = Counter()
     stack = [[]]
@@ -245,7 +256,8 @@ def run_dfs(case: dict) -> dict:
             break
         prefix = stack.pop()
         policy = sched_mod.ReplayPolicy(prefix)
-        verdict, sched = one_schedule(sched_mod, lp, policy, T, n, early, fail, "after-exit" if n <= 1 else "none")
+        verdict, sched = one_schedule(sched_mod, lp, policy, T, n, early, fail, "after-exit" if n <= 1 else "none",
+                                      fail_type)
         explored += 1
         hashes.add(tuple(sched.trace))
         if sum(1 for t in sched.threads.values() if t["steps"] > 0) >= 2:
@@ -294,12 +306,13 @@ def run_stress(case: dict) -> dict:
         if n is None:
             n = 10 ** 9
         delays = [rng.choice([0, 0, 0.0005, 0.002]) for _ in range(16)]
+        fail_type = rng.choice(sorted(FAIL_TYPES))
         before = threading.active_count()
 
         def func(x):
             time.sleep(delays[x % 16])
             if fail is not None and x == fail:
-                raise Boom("boom")
+                raise FAIL_TYPES[fail_type]("boom")
             return x * 2 + 1
 
         out = []
@@ -313,7 +326,7 @@ def run_stress(case: dict) -> dict:
                         time.sleep(0.001)
                     if early is not None and i + 1 >= early:
                         break
-        except Boom:
+        except FAILURES:
             raised = True
         deadline = time.monotonic() + 20
         while threading.active_count() > before and time.monotonic() < deadline:
